@@ -248,4 +248,133 @@ theorem missing_of_hit (D : Defaults) (a : FieldAttr) (t : Ty) (v : Val)
       simp [hd, hv, dfl]
     · simp [hd, ho, hv]
 
+/-! ## (1) the self-describing round trip -/
+
+mutual
+theorem selfRT (D : Defaults) : ∀ (t : Ty) (v : Val), wf t = true → fits t v = true →
+    decSelf D t (encSelf D t v) = some (norm D t v)
+  | .atom _, v, _, h => by cases v <;> simp [fits] at h; simp [encSelf, decSelf, norm]
+  | .unit, v, _, h => by cases v <;> simp [fits] at h; simp [encSelf, decSelf, norm]
+  | .opt t, v, hw, h => by
+      cases v with
+      | none => simp [encSelf, decSelf, norm]
+      | some v =>
+        simp only [wf, Bool.and_eq_true, Bool.not_eq_true'] at hw
+        simp only [fits] at h
+        simp only [encSelf, norm]
+        rw [decSelf_opt_of_ne_null D t _ (enc_ne_null D t v hw.1 h), selfRT D t v hw.2 h]; rfl
+      | _ => simp [fits] at h
+  | .seq t, v, hw, h => by
+      cases v with
+      | seq vs =>
+        simp only [wf] at hw
+        simp only [fits, List.all_eq_true] at h
+        simp only [encSelf, decSelf, norm]
+        rw [mapM_map_some (decSelf D t) (encSelf D t) (norm D t) vs
+          (fun v hv => selfRT D t v hw (h v hv))]; rfl
+      | _ => simp [fits] at h
+  | .map _ t, v, hw, h => by
+      cases v with
+      | seq es =>
+        simp only [wf] at hw
+        simp only [fits, List.all_eq_true] at h
+        simp only [encSelf, decSelf, norm]
+        rw [mapM_map_some _ _ (fun e => match e with
+          | .tuple [.atom k, v] => Val.tuple [.atom k, norm D t v]
+          | e => e) es ?_]; rfl
+        intro e he
+        obtain ⟨k, v, rfl, hf⟩ := entry_shape _ e (h e he)
+        simp [selfRT D t v hw hf]
+      | _ => simp [fits] at h
+  | .tuple ts, v, hw, h => by
+      cases v with
+      | tuple vs =>
+        simp only [wf] at hw; simp only [fits] at h
+        simp only [encSelf, decSelf, norm]
+        rw [selfRTTys D ts vs hw h]; rfl
+      | _ => simp [fits] at h
+  | .newtype _ t, v, hw, h => by
+      simp only [wf] at hw; simp only [fits] at h
+      simp only [encSelf, decSelf, norm]; exact selfRT D t v hw h
+  | .struct _ fs, v, hw, h => by
+      cases v with
+      | tuple vs =>
+        simp only [wf, Bool.and_eq_true] at hw; simp only [fits] at h
+        simp only [encSelf, decSelf, norm]
+        rw [selfRTFields D fs vs _ hw.1 h (lookOK_encSelfFields D fs vs hw.2)]; rfl
+      | _ => simp [fits] at h
+  | .enum _ vs, v, hw, h => by
+      cases v with
+      | variant i v =>
+        simp only [wf, Bool.and_eq_true] at hw; simp only [fits] at h
+        simp only [encSelf, decSelf, norm]
+        rw [selfRTVariant D vs i v 0 hw.1 hw.2 h]; simp
+      | _ => simp [fits] at h
+theorem selfRTTys (D : Defaults) : ∀ (ts : Tys) (vs : List Val), wfTys ts = true →
+    fitsTys ts vs = true → decSelfTys D ts (encSelfTys D ts vs) = some (normTys D ts vs)
+  | .nil, vs, _, h => by
+      cases vs <;> simp [fitsTys] at h; simp [encSelfTys, decSelfTys, normTys]
+  | .cons t r, vs, hw, h => by
+      cases vs with
+      | nil => simp [fitsTys] at h
+      | cons v vs =>
+        simp only [wfTys, Bool.and_eq_true] at hw; simp only [fitsTys, Bool.and_eq_true] at h
+        simp only [encSelfTys, decSelfTys, normTys, selfRT D t v hw.1 h.1,
+          selfRTTys D r vs hw.2 h.2]
+theorem selfRTFields (D : Defaults) : ∀ (fs : Fields) (vs : List Val) (l : List (String × SVal)),
+    wfFields fs = true → fitsFields fs vs = true → lookOK D l fs vs →
+    decSelfFields D fs l = some (normFields D fs vs)
+  | .nil, vs, l, _, h, _ => by
+      cases vs <;> simp [fitsFields] at h; simp [decSelfFields, normFields]
+  | .cons a t r, vs, l, hw, h, hl => by
+      cases vs with
+      | nil => simp [fitsFields] at h
+      | cons v vs =>
+        simp only [wfFields, Bool.and_eq_true] at hw
+        simp only [fitsFields, Bool.and_eq_true] at h
+        simp only [lookOK] at hl
+        have ih := selfRTFields D r vs l hw.2 h.2 hl.2
+        simp only [decSelfFields, normFields, ih]
+        cases hs : a.skip
+        · have hlk := hl.1 hs
+          cases hh : skipHit D a t v
+          · simp [hh] at hlk; simp [hlk, selfRT D t v hw.1.2 h.1]
+          · simp [hh] at hlk; simp [hlk, missing_of_hit D a t v hs hw.1.1 hh]
+        · simp
+theorem selfRTVariant (D : Defaults) : ∀ (vs : Variants) (i : Nat) (v : Val) (i0 : Nat),
+    wfVariants vs = true → nodup (variantNames vs) = true → fitsVariant vs i v = true →
+    decSelfVariant D vs i0 (encSelfVariant D vs i v)
+      = some (.variant (i0 + i) (normVariant D vs i v))
+  | .nil, _, _, _, _, _, h => by simp [fitsVariant] at h
+  | .unit n r, 0, v, i0, _, _, h => by
+      simp only [fitsVariant] at h
+      have : v = .unit := by simpa using h
+      simp [encSelfVariant, decSelfVariant, normVariant, this]
+  | .newtype n t r, 0, v, i0, hw, _, h => by
+      simp only [fitsVariant] at h; simp only [wfVariants, Bool.and_eq_true] at hw
+      simp [encSelfVariant, decSelfVariant, normVariant, selfRT D t v hw.1 h]
+  | .unit n r, i + 1, v, i0, hw, hnd, h => by
+      simp only [fitsVariant] at h; simp only [wfVariants] at hw
+      simp only [variantNames] at hnd; rw [nodup_cons] at hnd
+      have ih := selfRTVariant D r i v (i0 + 1) hw hnd.2 h
+      simp only [encSelfVariant, normVariant]
+      rcases encVariant_shape D r i v h with ⟨m, hm, e⟩ | ⟨m, p, hm, e⟩
+      · rw [e] at ih ⊢
+        have hne : (m == n) = false := by simp; intro e; subst e; exact hnd.1 hm
+        simp only [decSelfVariant, hne]; rw [ih, show i0 + 1 + i = i0 + (i + 1) by omega]; simp
+      · rw [e] at ih ⊢
+        simp only [decSelfVariant]; rw [ih, show i0 + 1 + i = i0 + (i + 1) by omega]
+  | .newtype n t r, i + 1, v, i0, hw, hnd, h => by
+      simp only [fitsVariant] at h; simp only [wfVariants, Bool.and_eq_true] at hw
+      simp only [variantNames] at hnd; rw [nodup_cons] at hnd
+      have ih := selfRTVariant D r i v (i0 + 1) hw.2 hnd.2 h
+      simp only [encSelfVariant, normVariant]
+      rcases encVariant_shape D r i v h with ⟨m, hm, e⟩ | ⟨m, p, hm, e⟩
+      · rw [e] at ih ⊢
+        simp only [decSelfVariant]; rw [ih, show i0 + 1 + i = i0 + (i + 1) by omega]
+      · rw [e] at ih ⊢
+        have hne : (m == n) = false := by simp; intro e; subst e; exact hnd.1 hm
+        simp only [decSelfVariant, hne]; rw [ih, show i0 + 1 + i = i0 + (i + 1) by omega]; simp
+end
+
 end Altrios.Proofs.SerdeL
